@@ -47,10 +47,12 @@ class StabNonblocking(Unit):
         t = qn.leaf((1,), 0)
         stop = lambda idx: stop_cond(c, z3.Select(qi.arrs[(0,)], qi.lo + idx), z3.Select(qi.arrs[(1,)], qi.lo + idx), t, cfg["jitter"])
 
+        roles = aw.Roles()
+
         def inv(ex_, k):
             env = ex_.frame.env
             j = z3.Int("j!en")
-            return z3.And(toz(env["num_msgs"]) == k, toz(env["ts_step"]) == t, z3.ForAll([j], z3.Implies(z3.And(0 <= j, j < k), z3.Not(stop(j)))), aw.same(c.f["q_ts_input"], qi))
+            return z3.And(toz(roles.get(env, "num_msgs", aw.is_zero)) == k, toz(roles.get(env, "ts_step", aw.is_term(t))) == t, z3.ForAll([j], z3.Implies(z3.And(0 <= j, j < k), z3.Not(stop(j)))), aw.same(c.f["q_ts_input"], qi))
 
         ex.loops[("push_expected_nonblocking", 1)] = LoopSpec(inv)
         n0 = len(ex.ev)
@@ -103,6 +105,8 @@ class StabTsMax(Unit):
                 ex.assume(cl)
         pre = ctx.snapshot(c)
         n0 = len(ex.ev)
+        from .async_conn import running_max_spec
+        ex.loops[("push_ts_max", 1)] = running_max_spec(c, pre.f["q_ts_input"], pre.f["q_expected_ts_max"].leaf((), 0))      # only used if the code has such a loop
         ctx.call(self_obj=c)
         if not [e for e in ex.ev[n0:] if e.kind == "submit"]:
             return None
@@ -146,7 +150,7 @@ class StabSelection(Unit):
 
         def inv(ex_, k):
             env = ex_.frame.env
-            g = env["grouped"]
+            g = aw.Roles().get(env, "grouped")
             qm, rm = c.f["q_msgs"], c.f["_record_messages"]
             j = z3.Int("j!ps")
             M = lambda p, t: z3.Select(qm0.arrs[p], qm0.lo + t)
